@@ -17,6 +17,9 @@ spec fn rely_st(&self) -> St;                    // the checker state it expects
 spec fn observes_finish() -> bool;               // does `finish` leave a trace (false for the no-op default)
 spec fn replace_is_atomic() -> bool;             // `replace` records one Replace event (overriding hooks) / Delete+Insert (default)
 spec fn accepts_replace(&self) -> bool;          // may `replace` be called (false for the Replace adapter: outside the verified envelope)
+#[verifier::prophetic]
+spec fn fobs(&self) -> Obs<Self::Error>;         // prophecy: what the hook(s) borrowed inside this value will look like when the borrows end;
+                                                 // no call re-seats such a borrow, so it never changes (lets callers resolve `&mut` hooks stored in adapters)
 ''', '    ')
 O = '(*old(self))'
 F = '(*final(self))'
@@ -26,6 +29,7 @@ def contract(ev):
     return '''
     requires %s,
     ensures %s,
+        FOBS,
         res.is_ok() ==> %s.trace() == %s.trace().push(%s),
         res.is_ok() ==> %s.rely_st() == step_rel(%s.rely_rel(), %s.rely_st(), %s),
 ''' % (PRE % ev, FRAME, F, O, ev, F, O, O, ev)
@@ -40,6 +44,7 @@ k = semi_after('replace')
 o.lines[k:k] = ghost('''
     requires %s, %s.accepts_replace(),
     ensures %s,
+        FOBS,
         res.is_ok() ==> %s.trace() == (if Self::replace_is_atomic() { %s.trace().push(%s) }
             else { %s.trace().push(Ev::Delete(old_index, old_len, new_index)).push(Ev::Insert(old_index, new_index, new_len)) }),
         res.is_ok() ==> %s.rely_st() == step_rel(%s.rely_rel(), %s.rely_st(), %s),
@@ -48,7 +53,9 @@ k = semi_after('finish')
 o.lines[k:k] = ghost('''
     requires !%s.failed(), %s.relies() ==> wf(%s.rely_st()),
     ensures %s,
+        FOBS,
         res.is_ok() ==> %s.trace() == %s.trace() + (if Self::observes_finish() { seq![Ev::Finish] } else { Seq::<Ev>::empty() }),
         res.is_ok() ==> %s.rely_st() == (if Self::observes_finish() { step_rel(%s.rely_rel(), %s.rely_st(), Ev::Finish) } else { %s.rely_st() }),
 ''' % (O, O, O, FRAME, F, O, F, O, O, O), '    ')
+o.lines = [l.replace('FOBS,', '(*final(self)).fobs() == (*old(self)).fobs(),') for l in o.lines]
 o.save()
